@@ -129,13 +129,17 @@ def spec_parts(kind, tb, ta, L, R, xpre="", xpost=""):
     return l2, r2, standalone
 
 
-def mk(kind, tb, ta, L, R, idn, via="template"):
+def mk(kind, tb, ta, L, R, idn, via="template", pi=False):
     pre, post, _ = scaffold(kind)
     if kind in ("comment", "lcomment") and (tb or ta):
         return None
     src = pre + L + tag(kind, tb, ta) + R + post
     cfg = {"escape": "none", "decorators": [{"name": "nop", "kind": "setctx"}]}
     tag_nop = None
+    if pi:
+        # prevent_indent concerns the indentation of a standalone PARTIAL's output (C12) and nothing else: every other tag alone on
+        # its line loses the line as without it
+        cfg["prevent_indent"] = True
     if kind == "deco":
         src = pre + L + ("{{%s*nop this%s}}" % ("~" if tb else "", "~" if ta else "")) + R + post
     case = session(cfg, [("p", "P"), ("q", "Q({{> @partial-block}})")], {"api": "render_template", "src": src},
@@ -234,6 +238,8 @@ def generate(rng, n, tier="quick"):
                     k += 1
                     if r is not None:
                         out.append(r)
+                        if r[1]["standalone"] and kind != "partial":
+                            out.append(mk(kind, tb, ta, L, R, "g%05dpi" % (k - 1), pi=True))
                     if R in ("", "  ", "\t", "\n") or L in ("", "  "):
                         for via in ("reg_partial", "reg_string"):
                             r = mk(kind, tb, ta, L, R, "g%05d%s" % (k - 1, via[4]), via)
